@@ -168,9 +168,11 @@ class WorldAdapter:
         env.ctrls = {}
 
         def p_on_add(self):
+            env.seen_processors = env.w.processors      # reading the world from a lifecycle callback is everyday code
             env.log.append(('on_add', self.name, -1))
 
         def p_on_remove(self):
+            env.seen_processors = env.w.processors
             env.log.append(('on_remove', self.name, -1))
 
         def p_process(self, dt):
